@@ -606,6 +606,20 @@ def check_refs(X, sl, rnd, P):
             P.add("C08", "null:layout", problem=str(e), **ctx)
         if obj.r is not None or obj.u is not None:
             P.add("C08", "null:readback", **ctx)
+        # a whole holder value with null references written over bound ones (Struct._update with a dictionary, as nested assignment
+        # does): the references become null, the other fields arrive
+        try:
+            obj.r = s1
+            obj.u = s1
+            obj._update({"k": 3, "r": None, "ra": arr, "u": None})
+            dv, _ = Decoder(X, image(buf)).decode(R1, obj._offset)
+            if obj.r is not None or obj.u is not None or obj.k != 3 or dv["r"] is not None or dv["u"] is not None:
+                P.add("C08", "whole-update:null-reference-not-stored", r=repr(obj.r)[:60], u=repr(obj.u)[:60], k=int(obj.k), **ctx)
+            obj.k = 7
+        except LayoutError as e:
+            P.add("C08", "whole-update:null:layout", problem=str(e), **ctx)
+        except Exception as e:  # noqa
+            P.add("C08", f"whole-update:null:raised:{type(e).__name__}", problem=str(e)[:200], **ctx)
         # union: member by (name, data), by instance
         obj.u = (S2.__name__, sl.value(S2, rnd))
         if type(obj.u).__name__ != S2.__name__ or obj.u._buffer is not buf:
@@ -841,6 +855,32 @@ def check_copy(X, cls, val, rnd, P):
                 break
             assign(X, cp, path, follow(X, src, path))
         P.evals += 1
+    # the source is a view rebuilt from (buffer, offset) -- how nested fields, items and referents are handed out --, and after the copy
+    # the original is rewritten in place with the same number of items laid out differently: the copy keeps its value
+    if X.array.is_array(cls) and cls._itemtype._size is None and len(cls._shape) == 1 and not getattr(cls, "_has_refs", False) and len(val) >= 2:
+        want0 = norm(X, cls, val)
+        rev = list(reversed(list(val)))
+        if not eq(norm(X, cls, rev), want0):
+            for where in ("same-buffer", "other-buffer", "other-context"):
+                buf, _ = make_buffer(X, rnd, "n")
+                src = construct(cls, val, buf, "default", rnd)
+                dbuf = buf if where == "same-buffer" else (buf.context.new_buffer(16) if where == "other-buffer" else X.ContextCpu().new_buffer(16))
+                ctx = dict(cls=cls.__name__, where=where + ":from-view", value=repr(val)[:150])
+                try:
+                    view = cls._from_buffer(buf, src._offset)
+                    cp = cls(view, _buffer=dbuf)
+                    try:
+                        view._update(rev)
+                        if not eq(plain(X, view), norm(X, cls, rev)):
+                            continue
+                    except Exception:  # noqa  (whether this rewrite is honoured is C10's / C11's business, not C09's)
+                        continue
+                    P.evals += 1
+                    got = plain(X, cp)
+                    if not eq(got, want0):
+                        P.add("C09", f"copy-from-view:rewrite-of-source-shows-in-copy:{tk}", got=repr(got)[:200], **ctx)
+                except Exception as e:  # noqa
+                    P.add("C09", f"copy-from-view:{tk}:raised:{type(e).__name__}", problem=str(e)[:200], **ctx)
 
 
 def run_all(tier, seed):
